@@ -111,6 +111,36 @@ def _operand_key(t):
     return (1 if t[0] in ('int', 'f64', 'bool', 'constref') else 0, repr(t))
 
 
+def eval_with(t, env):
+    """value of an integer / boolean term when the terms in env have the given values; None when that does not determine it"""
+    if not isinstance(t, tuple) or not t:
+        return None
+    if t in env:
+        return env[t]
+    k = t[0]
+    if k == 'int':
+        return t[1]
+    if k == 'bool':
+        return int(t[1])
+    if k == 'cast':
+        return eval_with(t[1], env)
+    if k == 'un' and t[1] == 'Not':
+        a = eval_with(t[2], env)
+        return None if a is None else int(not a)
+    if k == 'bin' and len(t) >= 4:
+        a, b = eval_with(t[2], env), eval_with(t[3], env)
+        if a is None or b is None:
+            return None
+        op = t[1]
+        if op in ('BitAnd', 'BitOr'):
+            return int(bool(a) and bool(b)) if op == 'BitAnd' else int(bool(a) or bool(b))
+        if op in ('Add', 'Sub', 'Mul'):
+            return a + b if op == 'Add' else a - b if op == 'Sub' else a * b
+        if op in ('Lt', 'Le', 'Eq', 'Ne', 'Gt', 'Ge'):
+            return int({'Lt': a < b, 'Le': a <= b, 'Eq': a == b, 'Ne': a != b, 'Gt': a > b, 'Ge': a >= b}[op])
+    return None
+
+
 def cmp_atom(op, a, b, ty):
     """Canonical comparison atom: `a > b` is `b < a`, `a >= b` is `b <= a` (exact for floats too, NaN included), and the
     operands of == / != are put in a fixed order.  Whichever way round the source spells a comparison, the interpreter
@@ -481,6 +511,11 @@ class Interp:
                     if fv is not None:
                         v = fv
                         continue
+                if e[0] == 'i' and v[1] == 'array' and e[1][0] == 'int':
+                    fv = agg_field(v, str(e[1][1]))
+                    if fv is not None:
+                        v = fv
+                        continue
                 return ('proj', v, tuple(proj[n:]))
             if v[0] == 'vecarr' and e[0] == 'i' and e[1][0] == 'int':
                 fv = agg_field(v[1], str(e[1][1]))
@@ -581,6 +616,9 @@ class Interp:
         if 'enum' in j:
             e = j['enum']
             return agg(e['adt'], e['variant'], e['vi'], ())
+        if 'struct' in j:
+            fs = [(n_, self.decode_const(v_)) for n_, v_ in j['struct']['fields']]
+            return None if any(v_ is None for _, v_ in fs) else agg(j['struct']['adt'], '', 0, fs)
         if 'option' in j:
             if j['option'] is None:
                 return NONE
@@ -640,6 +678,10 @@ class Interp:
             v = self.decode_const(c['ref_const'])
             if v is not None:
                 return ('constref', v)
+        if 'val_const' in c:
+            v = self.decode_const(c['val_const'])
+            if v is not None:
+                return v
         if 'fn' in c:
             r = c['fn'].get('resolved')
             return ('fnitem', c['fn']['path'], r['key'] if r else None, c['fn']['def'],
@@ -915,6 +957,13 @@ class Interp:
                     st.eff.append(('assert', t['msg'], c, t['expected'],
                                    tuple(self.operand(st, fr, x) for x in t['mops']),
                                    self.site(st, bidx), fn['def']))
+                    forks = self.table_index_forks(st, fr, fn, t)
+                    if forks is not None:
+                        for s2 in forks:
+                            s2.frames[-1].block = t['target']
+                            if not self.leaves(s2, t['target'], loopctx, finished):
+                                work.append(s2)
+                        return
                 nxt = [t['target']]
             elif k == 'switch':
                 d = self.operand(st, fr, t['discr'])
@@ -956,14 +1005,14 @@ class Interp:
                     # fork
                     for v, b in opts[1:]:
                         s2 = st.fork()
-                        s2.cons.append((d, v))
+                        self.record_con(s2, d, v)
                         self.note_variant(s2, d, v)
                         s2.frames[-1].block = b
                         if self.leaves(s2, b, loopctx, finished):
                             continue
                         work.append(s2)
                     v, b = opts[0]
-                    st.cons.append((d, v))
+                    self.record_con(st, d, v)
                     self.note_variant(st, d, v)
                     nxt = [b]
             elif k == 'return':
@@ -1204,6 +1253,70 @@ class Interp:
                     finished.append(s)
                 else:
                     finished.append(s)
+
+    def record_con(self, st, d, v):
+        """a branch taken on `a & b` being true is a branch on a and on b; on `a | b` being false, on !a and on !b"""
+        st.cons.append((d, v))
+        if isinstance(d, tuple) and d and d[0] == 'bin' and d[1] in ('BitAnd', 'BitOr') and len(d) >= 4 and str(d[-1]) == 'bool':
+            true = (v == 1) or v == ('not', (0,))
+            false = (v == 0)
+            if (d[1] == 'BitAnd' and true) or (d[1] == 'BitOr' and false):
+                for x in (d[2], d[3]):
+                    if isinstance(x, tuple) and x and x[0] == 'bin':
+                        self.record_con(st, x, ('not', (0,)) if true else 0)
+
+    def table_index_forks(self, st, fr, fn, t):
+        """`TABLE[i]` with TABLE a constant array of known elements (at most 16) and i symbolic: the lookup is the decision tree of
+        a `match i { 0 => TABLE[0], .. }` — one state per index allowed by the comparisons already taken, with i bound to it.
+        Returns the forked states positioned before the indexing block, or None when this bounds check is not of that kind."""
+        if t.get('msg') != 'BoundsCheck' or len(t.get('mops', [])) != 2:
+            return None
+        ln, ix = t['mops']
+        if ln.get('k') != 'const' or 'int' not in ln or not (0 < int(ln['int']) <= 16):
+            return None
+        if ix.get('k') not in ('copy', 'move') or ix['p']['proj']:
+            return None
+        il = ix['p']['l']
+        iv = self.operand(st, fr, ix)
+        if iv[0] == 'int' or t['target'] is None:
+            return None
+        base = None
+        for s_ in fn['blocks'][t['target']]['stmts']:
+            if s_['k'] == 'assign' and s_['rv']['k'] == 'use' and s_['rv']['a'].get('k') in ('copy', 'move'):
+                pr = s_['rv']['a']['p']['proj']
+                if pr and pr[-1].get('k') == 'index' and pr[-1].get('l') == il:
+                    bp = dict(s_['rv']['a']['p'])
+                    bp['proj'] = pr[:-1]
+                    try:
+                        base = self.read(st, self.place(st, fr, bp))
+                    except Exception:
+                        base = None
+        if base is not None and base[0] == 'constref':
+            base = base[1]
+        if not is_agg(base, 'array') or len(base[4]) != int(ln['int']):
+            return None
+        inner = iv
+        while inner[0] == 'cast':
+            inner = inner[1]
+        out = []
+        for k in range(int(ln['int'])):
+            # feasibility against what the path already knows about the index (comparisons with constants)
+            feas = True
+            for ct, cv in st.cons:
+                x = eval_with(ct, {iv: k, inner: k})
+                if x is None:
+                    continue
+                want = (x == cv) if isinstance(cv, int) else (x not in cv[1]) if isinstance(cv, tuple) and cv and cv[0] == 'not' else True
+                if not want:
+                    feas = False
+                    break
+            if not feas:
+                continue
+            s2 = st.fork()
+            s2.cons.append((inner, k))
+            self.write_quiet(s2, self.place(s2, s2.frames[-1], ix['p']), INT(k))
+            out.append(s2)
+        return out or None
 
     def known_array(self, it):
         """elements of `for v in [a, b, c]` (an array value of known elements taken by value), else None"""
@@ -1801,7 +1914,9 @@ class Interp:
             if is_agg(a0, None, 'None'):
                 return a0
             return ('copied', a0)
-        if decl in ('std::option::Option::<T>::as_ref', 'std::option::Option::<T>::as_mut'):
+        if decl in ('std::option::Option::<T>::as_ref', 'std::option::Option::<T>::as_mut', 'std::option::Option::<T>::as_deref',
+                    'std::option::Option::<T>::as_deref_mut'):
+            # as_deref: the referent seen through Deref (a Vec as its slice: the same collection here)
             if a0[0] == 'ref':
                 v = self.read(st, a0[1])
                 if is_agg(v, None, 'None'):
@@ -2001,6 +2116,9 @@ class Interp:
                     break
             if f_[0] in ('closure', 'fnitem') and is_agg(args[1], 'tuple'):
                 return self.apply_callable(st, fr, f_, [v for _, v in args[1][4]], dest, t['target'], site)
+        if re.match(r'core::num::<impl i(8|16|32|64|128|size)>::is_(negative|positive)$', decl) and len(args) == 1:
+            ty_ = decl.split('<impl ')[1].split('>')[0]
+            return cmp_atom('Lt', a0, INT(0), ty_) if decl.endswith('negative') else cmp_atom('Lt', INT(0), a0, ty_)
         if decl in ('std::ops::Range::<Idx>::contains', 'std::ops::RangeInclusive::<Idx>::contains') and len(args) == 2:
             # `(a..b).contains(&x)` is `a <= x && x < b` (`<=` for `a..=b`): a boolean over two canonical comparison atoms
             r = self.strip_ref(st, a0)
@@ -2278,6 +2396,10 @@ class Interp:
         if target is not None and 'blocks' in target and target.get('krate') == self.F.crate \
                 and len(st.frames) < MAX_DEPTH:
             return self.push_frame(st, fr, target, cargs, dest, ret_target, site, post=tuple(post))
+        if f[0] == 'fnitem' and f[3] in ('core::slice::<impl [T]>::iter', 'core::slice::<impl [T]>::iter_mut') and len(argv) == 1:
+            # `.map(<[T]>::iter)`: the same value as the method call
+            return self.finish_post(st, fr, ('iter', self.coll_of(st, argv[0]), 'mut' if f[3].endswith('iter_mut') else 'ref'),
+                                    post, dest, ret_target, site)
         if f[0] == 'fnitem' and f[3] in ('std::vec::Vec::<T, A>::len', 'core::slice::<impl [T]>::len') and len(argv) == 1:
             # `.map(Vec::len)`: the same value as the method call
             return self.finish_post(st, fr, ('len', self.coll_of(st, argv[0])), post, dest, ret_target, site)
